@@ -324,3 +324,7 @@ func LiveGoroutines() int {
 func Freeze(roots ...interface{}) {}
 func Thaw()                       {}
 func FrozenWrites() int           { return 0 }
+
+// LocksetViolations: number of frozen (shared) locations that were written since Freeze
+// and whose accesses (reads and writes) do not all hold a common lock.  Engine only.
+func LocksetViolations() int { return 0 }
